@@ -28,8 +28,33 @@ Inductive op :=
 
 Inductive dres := DOk (l : list N) | DShort | DInvalid.
 
+(* SOURCE NAMES.  The receiver model keys its table by an abstract source name (an N).  A case carries
+   names = the String() value of every row of its source-address table, byte for byte as the Go standard
+   library computed it on the harness's net.Addr values (the harness reports them; nothing on the python or Coq
+   side guesses what String() prints).  The operations name a source by its row; the model's name of row s is
+   the FIRST row whose string equals that of row s, so two rows have the same model name exactly when their
+   String() values are equal (src_name_inj in proof/C14_Names.v) - addresses that differ only in the IPv6
+   zone, the port, the address family, the Go type ... are different sources as soon as String() differs, and
+   an IPv4 address and its IPv4-mapped form, or a *net.UDPAddr and a custom net.Addr printing the same text,
+   are ONE source.  An empty table means the harness's own addresses c14Addr(s), String() = "s" ++ decimal s
+   (injective), and the name of source s is s.  A row outside the table has no name: the case is rejected. *)
+Fixpoint find_name (nm : list byte) (l : list (list byte)) (i : N) : option N :=
+  match l with
+  | [] => None
+  | h :: t => if bytes_eqb nm h then Some i else find_name nm t (N.succ i)
+  end.
+
+Definition src_name (names : list (list byte)) (s : N) : option N :=
+  match names with
+  | [] => Some s
+  | _ => match nth_error names (N.to_nat s) with
+         | Some nm => find_name nm names 0%N
+         | None => None
+         end
+  end.
+
 Inductive case :=
-| CSeq (omin omax : Z) (rbuf : nat) (ctr0 : list N) (msgs : list (mspec * mobs))
+| CSeq (omin omax : Z) (rbuf : nat) (ctr0 : list N) (names : list (list byte)) (msgs : list (mspec * mobs))
        (ops : list op) (choices : list (N * key)) (hexp : Z) (final : list (list Z))
 | CDec (b : list byte) (r : dres)
 | CCfg (omin omax : Z) (r : option (Z * Z)).
@@ -131,7 +156,7 @@ Definition hrow (h : Z) (row : list Z) : Z :=
    (a nat literal in the thousands costs thousands of constructors to elaborate, per choice). *)
 Definition ch (i s m : N) : N * key := (i, (s, m)).
 
-Fixpoint run_ops (rbuf : nat) (frames : list (list (list byte))) (st : rstate) (now : Z) (i : N)
+Fixpoint run_ops (names : list (list byte)) (rbuf : nat) (frames : list (list (list byte))) (st : rstate) (now : Z) (i : N)
          (h : Z) (ops : list op) (choices : list (N * key)) (hexp : Z) (final : list (list Z)) {struct ops} : bool :=
   match ops with
   | [] => check_final st final && (h =? hexp)
@@ -142,13 +167,17 @@ Fixpoint run_ops (rbuf : nat) (frames : list (list (list byte))) (st : rstate) (
                              | (j, k) :: r => if N.eqb j i then (k, r) else ((0%N, 0%N), choices)
                              | [] => ((0%N, 0%N), [])
                              end in
-      let pkt := fun (s : N) (dg : list byte) =>
-        let r := on_packet rbuf now1 choice s dg st1 in
-        run_ops rbuf frames (fst r) now1 (N.succ i) (hrow h (obs_row (snd r) (fst r) (Some s))) t rest hexp final in
+      let pkt := fun (row : N) (dg : list byte) =>
+        match src_name names row with
+        | None => false
+        | Some s =>
+            let r := on_packet rbuf now1 choice s dg st1 in
+            run_ops names rbuf frames (fst r) now1 (N.succ i) (hrow h (obs_row (snd r) (fst r) (Some s))) t rest hexp final
+        end in
       match o with
-      | OSleep _ => run_ops rbuf frames st1 now1 (N.succ i) (hrow h (obs_row None st1 None)) t rest hexp final
+      | OSleep _ => run_ops names rbuf frames st1 now1 (N.succ i) (hrow h (obs_row None st1 None)) t rest hexp final
       | OGc _ tk => let st2 := gc_expired tk st1 in
-                    run_ops rbuf frames st2 now1 (N.succ i) (hrow h (obs_row None st2 None)) t rest hexp final
+                    run_ops names rbuf frames st2 now1 (N.succ i) (hrow h (obs_row None st2 None)) t rest hexp final
       | OFrame _ s m i' => pkt s (frame_of frames m i')
       | OFrameE _ s m i' => pkt s (nth i' (nth m frames []) [])
       | OMut _ s m i' pos v =>
@@ -174,12 +203,12 @@ Definition dres_eqb (a b : dres) : bool :=
 
 Definition check (c : case) : bool :=
   match c with
-  | CSeq omin omax rbuf ctr0 msgs ops choices hexp final =>
+  | CSeq omin omax rbuf ctr0 names msgs ops choices hexp final =>
       match wrap_cfg omin omax with
       | None => false
       | Some cf =>
           check_msgs cf ctr0 msgs &&
-          run_ops rbuf (map (fun mo => ob_frames (snd mo)) msgs) r_init 0 0%N 0 ops choices hexp final
+          run_ops names rbuf (map (fun mo => ob_frames (snd mo)) msgs) r_init 0 0%N 0 ops choices hexp final
       end
   | CDec b r => dres_eqb r (dres_of (decode_frame b)) && negb (is_panic (decode_frame b))
   | CCfg omin omax r =>
